@@ -269,8 +269,9 @@ class Driver:
         step.callbacks = self.cb_log[self._cb_mark :]
         return step
 
-    def line(self, text):
-        """One inbound line, fully pumped."""
+    def line(self, text, raw=None):
+        """One inbound line, fully pumped. `raw`: the bytes on the wire when they are not simply the UTF-8 form
+        of `text` (invalid sequences); only the flavour with a real reader path can take them."""
         step = self._begin()
         gw = self.gw
         try:
@@ -279,7 +280,7 @@ class Driver:
                 gw.tasks.transport.recv(topic, payload, qos)
             elif self.flavour == "synct" and "\n" not in text:
                 # the real reader path: bytes arrive in reads of at most 120 bytes (what the TCP reader asks for)
-                data = text.encode("utf-8") + b"\n"
+                data = (raw if raw is not None else text.encode("utf-8")) + b"\n"
                 for pos in range(0, len(data), 120):
                     self.transport.protocol.data_received(data[pos:pos + 120])
             else:
